@@ -17,7 +17,7 @@ from vlib.core import HELD, VIOLATED, Check, Scratch, result
 
 GEOMS = ["contiguous", "clusters_far", "dense_vs_sparse", "uneven_extent", "pole", "wrap", "antipodal", "single_patch", "fullsky", "offcentre"]
 ZCLASSES = ["lowz", "mid", "highz", "empty_bins", "one_bin", "patch_outside"]
-SCALECLASSES = ["one", "overlap", "many_edges", "weighted"]
+SCALECLASSES = ["one", "overlap", "many_edges", "weighted", "from_zero"]
 UNITS = ["kpc", "Mpc", "rad", "deg", "arcmin", "arcsec", "kpc/h", "Mpc/h"]
 
 
@@ -162,11 +162,15 @@ def gen_scales(case, rng, theta_max, edges, cosmo):
         lo, hi = [rng.uniform(0.0, 0.3)], [1.0]
     elif s == "overlap":
         lo, hi = [0.05, 0.2, 0.1], [0.6, 1.0, 0.4]
+    elif s == "from_zero":
+        # a lower limit of exactly 0: coincident points (every object with itself in an autocorrelation,
+        # shared positions between catalogs) have separation 0 and are outside (0, theta_max]
+        lo, hi = ([0.0], [1.0]) if rng.random() < 0.5 else ([0.0, 0.2], [0.5, 1.0])
     elif s == "many_edges":
         lo, hi = [0.02, 0.1, 0.3, 0.55, 0.15], [0.1, 0.3, 0.55, 1.0, 0.8]
     else:  # weighted
         lo, hi = ([0.1], [1.0]) if rng.random() < 0.5 else ([0.05, 0.3], [0.5, 1.0])
-    lo = np.maximum(np.array(lo) * theta_max, 1e-6)
+    lo = np.where(np.array(lo) == 0.0, 0.0, np.maximum(np.array(lo) * theta_max, 1e-6))
     hi = np.array(hi) * theta_max
     zref = float((edges[0] + edges[-1]) / 2)
     unit = case["unit"]
@@ -218,7 +222,10 @@ class C01(Check):
                         c.update(geom=geom, zcls=zcls, unit=unit, scls="one" if k % 2 else "overlap", wscale=1.0, duplicates=False)
                         yield c
         for i in range(n):
-            yield gen_case(rng, seed * 100003 + i, i)
+            c = gen_case(rng, seed * 100003 + i, i)
+            if c["scls"] == "from_zero" and not c["auto"]:
+                c["duplicates"] = True  # positions shared between the catalogs: separation exactly 0
+            yield c
 
     def setup_worker(self):
         warnings.simplefilter("ignore")
